@@ -31,6 +31,8 @@ EXPLANATION = (
   ' (LINT-l) no tuple / list / set display of the anchored modules lists the same computed component twice and no dict display repeats a key (a key or fingerprint built that way cannot tell apart what the missing component would have);'
   ' (STATE-share) no assignment stores a container field of one object (a field the package updates in place) into a field of another object without copying it, so an in-place update of one object never changes another;'
   " (ITEM-source) an object built once per item of an inner loop is filled only with values that derive from that item or do not vary with the loops, never with a value of the enclosing container standing where the item's own belongs;"
+  ' (LOOP-break) no loop over the items of a collection is left by a branch that does nothing but `break` on a test about the item (end-of-input sentinels, flags set in the loop body and searches whose variable is read afterwards excepted): an item that is to be skipped does not end the processing of the items after it;'
+  ' (FIN-regex) the white-space collapsing substitution treats exactly SPACE, TAB, CR and LF as linear white space (NBSP, ideographic and em spaces, VT and FF are characters);'
 )
 RULE_TEXT = "per length-bearing property, per mutator call on ISD-owned values, per return site, per document parameter"
 UNDECIDED = ["white-space collapsing results", "emptiness pruning as semantics (no empty text node, no childless span)",
@@ -303,10 +305,12 @@ def check_doc_params(ctx):
 
 
 def check_compute_bookkeeping(ctx):
-  """PAIR-compute: every style value that _process_element copies onto the ISD element from an
-  uncomputed source (animation step, specified style, initial value, direction semantics) is
-  registered, with the same property, in the set handed to _compute_styles - otherwise its lengths
-  stay in the source units."""
+  """PAIR-compute: every style value that _process_element (or a helper it calls before style computation) copies onto
+  the ISD element from an uncomputed source (animation step, specified style, initial value, direction semantics) is
+  registered, with the same property, in the set handed to _compute_styles - otherwise its lengths stay in the source
+  units.  Path rule: the registration dominates the copy, or follows it on every path to the end of the loop iteration /
+  function.  Sets that flow into the computed set (returned by a helper, assigned, merged) count as that set."""
+  from ..cfg import CFG
   ix = ctx.ix
   pe = ix.func("ttconv.isd:ISD._process_element")
   ctx.unit(pe.module)
@@ -316,29 +320,77 @@ def check_compute_bookkeeping(ctx):
   sname = comp[0].args[0].id
   isd_el = unparse(comp[0].args[-1])
 
-  def top(n):
-    for i, st in enumerate(pe.node.body):
+  def top(fn, n):
+    for i, st in enumerate(fn.node.body):
       if any(x is n for x in ast.walk(st)):
         return i
     return -1
-  ctop = top(comp[0])
-  n = 0
+  ctop = top(pe, comp[0])
+  # helpers of the module called before the computation that receive the ISD element
+  work = [(pe, isd_el, {sname}, ctop)]
   for c in own_nodes(pe.node):
-    if isinstance(c, ast.Call) and isinstance(c.func, ast.Attribute) and c.func.attr == "set_style" and unparse(c.func.value) == isd_el and len(c.args) == 2 and top(c) < ctop:
+    if isinstance(c, ast.Call) and 0 <= top(pe, c) < ctop:
+      r = ix.resolve(pe.module, c.func, cls=pe.cls, func=pe)
+      if r is not None and getattr(r, "module", None) is pe.module and hasattr(r, "params") and r is not pe and r.name not in ("_make_absolute", "_compute_styles"):
+        off = 0
+        for i, a_ in enumerate(c.args):
+          if unparse(a_) == isd_el and i + off < len(r.params):
+            # sets of the helper: those it returns (the caller merges them) or receives from the caller's set
+            sets = {unparse(x.value) for x in own_nodes(r.node) if isinstance(x, ast.Return) and isinstance(x.value, ast.Name)}
+            for j, b_ in enumerate(c.args):
+              if unparse(b_) == sname and j < len(r.params):
+                sets.add(r.params[j])
+            work.append((r, r.params[i + off], sets, 10 ** 6))
+  n = 0
+  for (fn, el, sets, limit) in work:
+    # aliases: names assigned into / merged into the set
+    changed = True
+    while changed:
+      changed = False
+      for st in own_nodes(fn.node):
+        if isinstance(st, ast.Assign) and len(st.targets) == 1 and isinstance(st.targets[0], ast.Name) and st.targets[0].id in sets:
+          for x in ast.walk(st.value):
+            if isinstance(x, ast.Name) and x.id not in sets and x.id not in fn.params:
+              sets.add(x.id)
+              changed = True
+        if isinstance(st, ast.Call) and isinstance(st.func, ast.Attribute) and st.func.attr in ("update", "union") and unparse(st.func.value) in sets:
+          for a_ in st.args:
+            if isinstance(a_, ast.Name) and a_.id not in sets:
+              sets.add(a_.id)
+              changed = True
+        if isinstance(st, ast.AugAssign) and unparse(st.target) in sets and isinstance(st.value, ast.Name) and st.value.id not in sets:
+          sets.add(st.value.id)
+          changed = True
+    cfg = CFG(fn.node)
+    dom = cfg.dominators()
+    for c in own_nodes(fn.node):
+      if not (isinstance(c, ast.Call) and isinstance(c.func, ast.Attribute) and c.func.attr == "set_style" and unparse(c.func.value) == el and len(c.args) == 2 and top(fn, c) < limit):
+        continue
       if isinstance(c.args[1], ast.Constant) and c.args[1].value is None:
         continue
       prop = unparse(c.args[0])
-      # the statement list that holds the call
-      st = c
-      while not isinstance(st, ast.stmt):
-        st = parent(st)
-      holder = parent(st)
-      sibs = [x for fld in ("body", "orelse") for x in (getattr(holder, fld, []) if isinstance(getattr(holder, fld, None), list) else []) ]
-      adds = [x for sb in sibs for x in ast.walk(sb) if isinstance(x, ast.Call) and isinstance(x.func, ast.Attribute) and x.func.attr == "add" and unparse(x.func.value) == sname and x.args and unparse(x.args[0]) == prop]
+      adds = [x for x in own_nodes(fn.node) if isinstance(x, ast.Call) and isinstance(x.func, ast.Attribute) and x.func.attr == "add" and unparse(x.func.value) in sets and x.args and unparse(x.args[0]) == prop]
+      cn = cfg.stmt_node_containing(c)
+      an = {cfg.stmt_node_containing(x) for x in adds}
+      an.discard(None)
+      ok = any(a_ in dom.get(cn, ()) for a_ in an)
+      if not ok and an:
+        # every way out of this iteration (loop head) or of the function passes a registration
+        loop = next((p_ for p_ in _anc(c) if isinstance(p_, (ast.For, ast.While))), None)
+        targets = [cfg.exit] + ([cfg.node_of(loop)] if loop is not None and cfg.node_of(loop) is not None else [])
+        ok = not any(cfg.paths_avoiding(cn, t_, an, skip_exc=True) for t_ in targets)
       n += 1
-      ctx.check(bool(adds), "PAIR-compute", f"{pe.qualname}|{short(c, 60)}", ctx.where(pe.module, c), f"`{sname}.add({prop})` in the same block",
-                f"`{short(c, 70)}` copies an uncomputed value onto the ISD element but `{prop}` is not added to `{sname}` in the same block: the value is never computed (lengths stay in %, em, c or px)")
+      ctx.check(ok, "PAIR-compute", f"{fn.qualname}|{short(c, 60)}", ctx.where(fn.module, c), f"`{prop}` is added to {sorted(sets)} on every path through this copy",
+                f"`{short(c, 70)}` copies an uncomputed value onto the ISD element but `{prop}` is not added to the set of properties to compute ({sorted(sets)}) on every path through it: "
+                f"the value is never computed (lengths stay in %, em, c or px)")
   ctx.floor("PAIR-compute", "uncomputed style copies in _process_element", n, 3)
+
+
+def _anc(node):
+  cur = getattr(node, "_parent", None)
+  while cur is not None:
+    yield cur
+    cur = getattr(cur, "_parent", None)
 
 
 def check_text_roots(ctx):
@@ -425,4 +477,5 @@ def run(ctx):
   ctx.floor("ORD-postorder", "recursive pruning steps that test a child's emptiness", npo, 1)
   isdrules.check_style_order(ctx)
   common.check_walkers(ctx, ["ttconv.isd"])
+  common.check_regex_probes(ctx, ["ttconv.isd"], floor=1)
   common.check_history_independence(ctx, common.CORE)
